@@ -356,64 +356,55 @@ def Port.handlePdelayTs (p : Port) (tsId : Nat) (ts : Nat) : R (Port × List Out
     else .ok (p, [])
   | _ => .ok (p, [])
 
+/-- the multiple-responder test shared by `handle_peer_delay_response[_follow_up]`:
+`some true` = a different responder answered this request ⇒ Faulty; `some false` = proceed;
+`none` = not for the current request ⇒ ignore -/
+def PeerSt.classify (s : PeerSt) (seq : Nat) (src : PortId) : Option Bool :=
+  match s with
+  | .post id responder => if id = seq ∧ responder ≠ src then some true else none
+  | .measuring id resp _ _ _ _ =>
+    if id = seq then
+      (match resp with
+       | some r => if r ≠ src then some true else some false
+       | none => some false)
+    else none
+  | .empty => none
+
 def Port.handlePdelayResp (p : Port) (h : Header) (rx : WireTs) (req : PortId) (recvTime : Nat) :
     R (Port × List Out) :=
   if p.id ≠ req then .ok (p, [])
   else
-    match p.peer with
-    | .post id responder =>
-      if id = h.seq ∧ responder ≠ h.src then
-        let (p, o) := p.setState .faulty
-        .ok (p, o)
-      else .ok (p, [])
-    | .measuring id resp _ _ _ _ =>
-      if id = h.seq then
-        (match resp with
-         | some r =>
-           if r ≠ h.src then
-             let (p, o) := p.setState .faulty
-             .ok (p, o)
-           else cont
-         | none => cont)
-      else .ok (p, [])
-    | .empty => .ok (p, [])
-where
-  cont : R (Port × List Out) :=
-    match p.peer with
-    | .measuring id _ reqSend _ respSend respRecv =>
-      match respRecv with
-      | some _ => .ok (p, [])
-      | none => do
-        let rr ← liftOv (timeSubDur recvTime (tivToDur h.correction))
-        let rq ← liftOv (wireToTime rx)
-        let respSend' := if !h.flags.twoStep then some rq else respSend
-        ({ p with peer := .measuring id (some h.src) reqSend (some rq) respSend' (some rr) }).timeMeasurement
-    | _ => .ok (p, [])
+    match p.peer.classify h.seq h.src with
+    | none => .ok (p, [])
+    | some true => .ok (p.setState .faulty)
+    | some false =>
+      match p.peer with
+      | .measuring id _ reqSend _ respSend respRecv =>
+        (match respRecv with
+         | some _ => .ok (p, [])
+         | none =>
+           orOv (timeSubDur recvTime (tivToDur h.correction)) fun rr =>
+             orOv (wireToTime rx) fun rq =>
+               ({ p with peer := .measuring id (some h.src) reqSend (some rq)
+                                   (if !h.flags.twoStep then some rq else respSend) (some rr) }).timeMeasurement)
+      | _ => .ok (p, [])
 
 def Port.handlePdelayRespFu (p : Port) (h : Header) (origin : WireTs) (req : PortId) : R (Port × List Out) :=
   if p.id ≠ req then .ok (p, [])
   else
-    match p.peer with
-    | .post id responder =>
-      if id = h.seq ∧ responder ≠ h.src then
-        let (p, o) := p.setState .faulty
-        .ok (p, o)
-      else .ok (p, [])
-    | .measuring id resp reqSend reqRecv respSend respRecv =>
-      if id = h.seq then
-        let other : Bool := match resp with | some r => decide (r ≠ h.src) | none => false
-        if other then
-          let (p, o) := p.setState .faulty
-          .ok (p, o)
-        else
-          match respSend with
-          | some _ => .ok (p, [])
-          | none => do
-            let t0 ← liftOv (wireToTime origin)
-            let s ← liftOv (timeAddDur t0 (tivToDur h.correction))
-            ({ p with peer := .measuring id (some h.src) reqSend reqRecv (some s) respRecv }).timeMeasurement
-      else .ok (p, [])
-    | .empty => .ok (p, [])
+    match p.peer.classify h.seq h.src with
+    | none => .ok (p, [])
+    | some true => .ok (p.setState .faulty)
+    | some false =>
+      match p.peer with
+      | .measuring id _ reqSend reqRecv respSend respRecv =>
+        (match respSend with
+         | some _ => .ok (p, [])
+         | none =>
+           orOv (wireToTime origin) fun t0 =>
+             orOv (timeAddDur t0 (tivToDur h.correction)) fun s =>
+               ({ p with peer := .measuring id (some h.src) reqSend reqRecv (some s) respRecv }).timeMeasurement)
+      | _ => .ok (p, [])
 
 /-- `send_delay_request` (delay timer) -/
 def Port.sendDelayRequest (p : Port) (s : InstState) : R (Port × List Out) :=
@@ -558,7 +549,8 @@ def Port.handleAnnounce (p : Port) (s : InstState) (m : Msg) (ab : AnnounceBody)
       let p := { p with fml := fml }
       let (p, o) :=
         if p.id.clock = m.header.src.clock ∧ p.id.port > m.header.src.port then
-          ({ p with multiportDisable := some 0 }).setState .passive
+          (if p.st = .faulty then ({ p with multiportDisable := some 0 }, [])
+           else ({ p with multiportDisable := some 0 }).setState .passive)
         else (p, [])
       let fwd := (tlvs m.suffix).filter (fun t => tlvPropagates t.ty) |>.map (fun t => Out.forward t m.header.src)
       .ok (p, s, o ++ [.reset .receipt .rand] ++ fwd)
@@ -600,7 +592,8 @@ def Port.handleEventReceive (p : Port) (s : InstState) (data : List UInt8) (ts :
 
 /-- `handle_announce_receipt_timer` -/
 def Port.handleReceiptTimer (p : Port) (s : InstState) : Port × List Out :=
-  if s.dflt.slaveOnly then
+  if p.st = .faulty then (p, [.reset .receipt .rand])     -- since the `fix:` commit: a faulty port stays faulty
+  else if s.dflt.slaveOnly then
     let (p, o) := if p.st ≠ .listening then p.setState .listening else (p, [])
     (p, o ++ [.reset .receipt .rand])
   else
@@ -639,7 +632,7 @@ def Port.setRecommendedPortState (p : Port) (r : Recommended) (d : DefaultDS) :
         let (p, o) := p.setState .listening
         .ok (p, o, some [.reset .receipt .rand])
     else if p.multiportDisable.isSome then
-      if p.st ≠ .passive then
+      if p.st ≠ .passive ∧ p.st ≠ .faulty then
         let (p, o) := p.setState .passive
         .ok (p, o, none)
       else .ok (p, [], none)
